@@ -431,7 +431,7 @@ func (fr *Frame) mergeStates(conds []string, sts []*State) *State {
 	if !sameEpoch {
 		// ghost and immutable heaps survive epoch changes
 		for k := range g.heapSorts {
-			if g.ghost[k] || g.immutableHeap(k) || k == "Alloc" {
+			if g.keepHeap(k) || k == "Alloc" {
 				names[k] = true
 			}
 		}
@@ -442,7 +442,7 @@ func (fr *Frame) mergeStates(conds []string, sts []*State) *State {
 	}
 	sort.Strings(ks)
 	for _, k := range ks {
-		if !sameEpoch && !(g.ghost[k] || g.immutableHeap(k)) {
+		if !sameEpoch && !g.keepHeap(k) {
 			// only keep if every predecessor has an explicit version; otherwise unknown after merge
 			all := true
 			for _, s := range sts {
@@ -534,6 +534,10 @@ func (fr *Frame) run(entry *State, reach string) error {
 						ev = fr.val(phi.Edges[ei])
 						break
 					}
+				}
+				if ev.Loc != nil && ev.T != "" && strings.HasPrefix(ev.Loc.Heap, "Local:") {
+					g.escaped[ev.Loc.Heap] = true
+					g.note("%s: the address of local %s flows through a phi: treated as escaped", fr.fn, ev.Loc.Heap)
 				}
 				if ev.Loc != nil && ev.T == "" {
 					locs = append(locs, ev.Loc)
